@@ -263,6 +263,10 @@ class ModelTable(dict):
         return m
 
 
+def _raised_here_not_in_iterator(e):
+    return "is not iterable" in str(e)
+
+
 class Interp:
     def __init__(self):
         self.models: Dict[int, Any] = ModelTable()  # id(live callable) -> model(interp, *args, **kw)
@@ -775,6 +779,8 @@ class Interp:
                 if ln is not None and isinstance(ln, pytypes.FunctionType):
                     return self.truth(self.call(ln, [v]))
             return True
+        if hasattr(v, "pyvc_truth"):
+            return self.truth(v.pyvc_truth(), label)
         return bool(v)
 
     # ------------------------------------------------------------------ statements
@@ -1184,7 +1190,12 @@ class Interp:
             raise Unsupported(f"iteration over {type(it).__name__}")
         if isinstance(it, dict):
             return list(it.keys())
-        return list(it)
+        try:
+            return list(it)
+        except TypeError as e:  # `for x in None` / in a non-iterable: python raises TypeError at the loop
+            if _raised_here_not_in_iterator(e):
+                self.raise_py(TypeError, *e.args)
+            raise
 
     def symbolic_iter(self, it):
         """-> (seq, mapper) when `it` iterates over a symbolic sequence, else None"""
@@ -1847,6 +1858,22 @@ class OpaqueAttr:
         self.__name__ = name
         self.__qualname__ = f"<opaque>.{name}"
         self.__module__ = "opaque"
+
+    # used as a VALUE (compared, tested): nothing is known about it - never answer concretely
+    def __eq__(self, o):
+        if o is self:
+            return True
+        raise Unsupported(f"comparison of the opaque attribute value .{self.name}")
+
+    def __ne__(self, o):
+        if o is self:
+            return False
+        raise Unsupported(f"comparison of the opaque attribute value .{self.name}")
+
+    __hash__ = object.__hash__
+
+    def __bool__(self):
+        raise Unsupported(f"truth value of the opaque attribute value .{self.name}")
 
 
 class SlotText:
